@@ -957,11 +957,23 @@ class Interp:
                 return h
             raise Unsupported('filtered comprehension over symbolic-length iterable')
         interp = self
+        cache = []  # (index term, object): list elements are objects with identity (frames may be mutated in place later)
 
         def item(k):
+            kz = to_z3(k)
+            for key, obj in cache:
+                if kz.eq(key):
+                    return obj
+            if not isinstance(k, z3.QuantifierRef):
+                for key, obj in cache:
+                    if not (z3.is_var(kz) or _has_bound_var(kz)) and interp.ctx.branch(kz == key):
+                        return obj
             e2 = Env(env)
             interp.assign(g.target, it.item(k), e2)
-            return interp.eval(node.elt, e2)
+            obj = interp.eval(node.elt, e2)
+            if isinstance(obj, (SFrame, SObj, SRow)) and not _has_bound_var(kz):
+                cache.append((kz, obj))
+            return obj
         return SSeq(it.length, item)
 
     # -- iteration -----------------------------------------------------------------------------
@@ -1234,6 +1246,17 @@ class Interp:
         if name == 'type':
             return SObj('type', of=a0)
         raise Unsupported(f'builtin {name}')
+
+
+def _has_bound_var(e):
+    todo = [e]
+    while todo:
+        x = todo.pop()
+        if z3.is_var(x):
+            return True
+        if z3.is_app(x):
+            todo.extend(x.children())
+    return False
 
 
 class BoundLib:
